@@ -13,7 +13,7 @@ Obj *borrow(int i) {            // library-owned objects with static storage
 Other *makeOther() { return new Other(); }
 int *newints(int n) { int *p = (int *)std::malloc(sizeof(int) * (n > 0 ? n : 1)); for (int i = 0; i < n; ++i) p[i] = 40 + i; ++counters.ints_live; ++counters.ints_made; return p; }
 int *libints(int n) { (void)n; return libarr; }
-const std::string name(const Obj &o) { return std::string("obj") + std::to_string(o.get()); }
+const std::string name(const Obj &o) { if (o.get() == 103) return std::string(); if (o.get() == 102) return std::string("exactly-fifteen"); return std::string("obj") + std::to_string(o.get()); }  // "" and the longest small string included
 // a pool of objects owned by the library; acquire hands one out, release_obj takes it back
 static Obj *slots[64];
 static bool used[64];
